@@ -168,6 +168,12 @@ let () =
       let rows = get_rows (fun c -> c.c_v) sh in
       "rows " ^ String.concat ";" (List.map (fun r -> String.concat "," (List.map hex_of_bytes r)) rows))
 
+let () =
+  reg "sheet.cols" (fun a ->
+      let sh = Model_gen.run (List.map parse_op a) empty_sheet in
+      let cols = get_cols (fun c -> c.c_v) sh in
+      "cols " ^ String.concat ";" (List.map (fun r -> String.concat "," (List.map hex_of_bytes r)) cols))
+
 (* ---- C16 sheet collection ---- *)
 let parse_wop (tok : string) : wop =
   match String.split_on_char ',' tok with
